@@ -55,12 +55,16 @@ class CFG:
         self,
         func: ast.FunctionDef | ast.AsyncFunctionDef | ast.Module,
         all_raise: bool = False,
+        assume: Optional[dict] = None,
     ):
         """``all_raise``: every statement containing a call/yield/await gets an implicit
         exception edge, not only statements inside a ``try`` (needed for rules about
         exceptional exits, e.g. generator-based context managers)."""
         self.func = func
         self.all_raise = all_raise
+        # path-sensitivity in one predicate: `if <text>` tests listed here take only the given branch
+        # (the caller guarantees the test is pure and its operands are never re-bound in the function)
+        self.assume = dict(assume or {})
         self.nodes: list[Node] = []
         self.succ: dict[Node, list[tuple[Node, str, str]]] = {}  # (dst, kind, label)
         self.pred: dict[Node, list[tuple[Node, str, str]]] = {}
@@ -155,6 +159,15 @@ class CFG:
         return n
 
     def _stmt(self, st: ast.stmt, preds: Dangling) -> Dangling:
+        if isinstance(st, ast.If) and self.assume:
+            from .index import norm as _norm
+
+            known = self.assume.get(_norm(st.test))
+            if known is not None:
+                t = self._simple(st, preds, "test")
+                if known:
+                    return self._seq(st.body, [(t, "T")])
+                return self._seq(st.orelse, [(t, "F")]) if st.orelse else [(t, "F")]
         if isinstance(st, ast.If):
             t = self._simple(st, preds, "test")
             out = self._seq(st.body, [(t, "T")])
